@@ -100,6 +100,19 @@ func c07Case(i int, raw []byte) Result {
 				return Result{OK: false, Sig: "MACHINERY:enctables", What: fmt.Sprintf("reference table %s[%#x]=%#x disagrees with x/text charmap %#x", c.Enc, c.Code, exp, cm.DecodeByte(byte(c.Code)))}
 			}
 		}
+		// a font value whose Encoding field is set to another encoding first, used, and then set to this one: what a font
+		// decodes follows the encoding it names NOW
+		for _, other := range []string{"WinAnsiEncoding", "MacRomanEncoding", "StandardEncoding", "SymbolEncoding"} {
+			if other == c.Enc {
+				continue
+			}
+			ft := &font.Font{Name: "F", Encoding: other}
+			ft.DecodeString([]byte{byte(c.Code), 0x41})
+			ft.Encoding = c.Enc
+			if again := ft.DecodeString([]byte{byte(c.Code)}); again != (&font.Font{Name: "F", Encoding: c.Enc}).DecodeString([]byte{byte(c.Code)}) {
+				return mk("font-reused", c.Enc, fmt.Sprintf("a font first used with %s and then set to %s decodes code %#02x to %U; a font created with %s decodes it to %U", other, c.Enc, c.Code, []rune(again), c.Enc, []rune((&font.Font{Name: "F", Encoding: c.Enc}).DecodeString([]byte{byte(c.Code)}))), cps(again))
+			}
+		}
 		// an overlay (a /Differences encoding) built over the named encoding changes what the OVERLAY decodes, never
 		// the named encoding itself - which every other font of the process shares
 		if base := font.GetEncoding(c.Enc); base != nil && exp != 0x2022 {
